@@ -109,8 +109,11 @@ func (r *Reporter) formatPrettyError(violation Violation) string {
 				// Calculate column position in truncated line
 				displayColumn := calculateDisplayColumn(line, position.Column, MaxLineLength)
 
-				// Add spaces to align the pointer
+				// Add spaces to align the pointer: one cell per character before it
 				for i := 1; i < displayColumn; i++ {
+					if i-1 < len(truncatedLine) && isContinuationByte(truncatedLine[i-1]) {
+						continue // inner byte of a multi-byte character: no cell of its own
+					}
 					if i-1 < len(truncatedLine) && truncatedLine[i-1] == '\t' {
 						builder.WriteString("\t")
 					} else {
@@ -191,6 +194,11 @@ func (r *Reporter) readSourceLines(filename string, lineNum, before, after int) 
 	}
 
 	return result
+}
+
+// isContinuationByte reports whether b is an inner byte of a multi-byte UTF-8 character
+func isContinuationByte(b byte) bool {
+	return b >= 0x80 && b < 0xC0
 }
 
 // truncateString truncates a string to the specified length, ensuring position is included
